@@ -16,6 +16,56 @@ func anonOf(c *Ctx, parent *ssa.Function, n int) *ssa.Function {
 	return parent.AnonFuncs[n]
 }
 
+// returnedFunc: the function a constructor returns as a value - a closure, a bound
+// method value (x.m) or a named function - found through the constructor's return
+// instruction, not by closure position or name.  recv reports whether the function takes
+// the bound receiver as its first parameter.
+func returnedFunc(c *Ctx, ctor *ssa.Function) (fn *ssa.Function, recv bool) {
+	for _, b := range ctor.Blocks {
+		for _, in := range b.Instrs {
+			ret, ok := in.(*ssa.Return)
+			if !ok || len(ret.Results) != 1 {
+				continue
+			}
+			v := ret.Results[0]
+			for {
+				if ct, ok := v.(*ssa.ChangeType); ok {
+					v = ct.X
+					continue
+				}
+				break
+			}
+			switch x := v.(type) {
+			case *ssa.Function:
+				return x, false
+			case *ssa.MakeClosure:
+				f := x.Fn.(*ssa.Function)
+				if f.Synthetic == "" {
+					return f, false
+				}
+				// bound method wrapper: its body calls the method with the bound receiver
+				for _, fb := range f.Blocks {
+					for _, fi := range fb.Instrs {
+						if ci, ok := fi.(ssa.CallInstruction); ok {
+							if callee := ci.Common().StaticCallee(); callee != nil && callee.Blocks != nil {
+								return callee, true
+							}
+						}
+					}
+				}
+			}
+		}
+	}
+	panic(anchorErr{"function value returned by " + ctor.String()})
+}
+
+func laneParams(recv bool) []string {
+	if recv {
+		return []string{"h", "ctx", "tx"}
+	}
+	return []string{"ctx", "tx"}
+}
+
 func propC20(c *Ctx) {
 	c.Clauses = append(c.Clauses,
 		"fee gate: the insufficient-fee error is reachable only with IsCheckTx, a non-zero combined floor and !fee.IsAnyGTE(required) (any-denom predicate); required = computeRequiredFees(tx gas, CombinedMinGasPrices(node prices, chain prices)); outside CheckTx or with an all-zero floor nothing is enforced",
@@ -173,11 +223,11 @@ func propC20(c *Ctx) {
 	})
 
 	c.Rule("C20.R2", func() {
-		fn := anonOf(c, c.Func("opchild/lanes", "SystemLaneMatchHandler"), 0)
+		fn, recvS := returnedFunc(c, c.Func("opchild/lanes", "SystemLaneMatchHandler"))
 		o := c.Ob("C20.R2", "system lane: true only for one MsgUpdateOracle or one MsgExec wrapping exactly one MsgUpdateOracle")
 		msgs := "(sdk.HasMsgs).GetMsgs(tx)"
 		nT := 0
-		for _, p := range c.Paths(fn, PO{Params: []string{"ctx", "tx"}, Visits: 4}) {
+		for _, p := range c.Paths(fn, PO{Params: laneParams(recvS), Visits: 4}) {
 			o.Paths++
 			o.Facts += p.NFacts()
 			if p.Panic || len(p.Ret) != 1 || p.Ret[0].IsFalse() {
@@ -213,11 +263,11 @@ func propC20(c *Ctx) {
 	})
 
 	c.Rule("C20.R3", func() {
-		fn := anonOf(c, c.Method("opchild/lanes", "FreeLaneMatchHandler", "MatchHandler"), 0)
+		fn, recvF := returnedFunc(c, c.Method("opchild/lanes", "FreeLaneMatchHandler", "MatchHandler"))
 		o := c.Ob("C20.R3", "free lane: true only when a whitelist element equals the fee payer or the (non-nil) fee granter")
 		feeTx := "tx.(sdk.FeeTx).0"
 		nT := 0
-		for _, p := range c.Paths(fn, PO{Params: []string{"ctx", "tx"}, Visits: 3}) {
+		for _, p := range c.Paths(fn, PO{Params: laneParams(recvF), Visits: 3}) {
 			o.Paths++
 			o.Facts += p.NFacts()
 			if p.Panic || len(p.Ret) != 1 || p.Ret[0].IsFalse() {
